@@ -1,6 +1,158 @@
-import PGM.Model.RegionGraph
-import PGM.Model.FactorGraph
-/-! C16 — Approximate marginal oracles are normalised, and exact on acyclic structures.
-Statements and proofs to be added; the executable model is `PGM.RG` / `PGM.FG`. -/
+import PGM.Proofs.OracleSem
+/-!
+# C16 — approximate marginal oracles are normalised, and exact on acyclic structures
+
+Models: `PGM/Model/RegionGraph.lean` (`build_graph`, `generalized_belief_propagation`) and
+`PGM/Model/FactorGraph.lean` (`loopy_belief_propagation`), generic over the scalar; the theorems
+are for the real-number instance (exact arithmetic: no overflow, `log`/`exp` are `Real.log`/`Real.exp`).
+
+* **normalisation** — for *every* region graph / clique list, potential vector, total `T > 0`, sweep
+  count and persisted message state, every returned table is `normalise T (belief)`
+  (`*_tables_normalised`), and `normalise T b` has strictly positive entries `T·softmax(b)` summing to `T`
+  (`normalise_valid`, `normalise_entry`); with hypotheses on the *inputs* only (no attribute of size 0, clique
+  potentials non-empty) every returned table is such a valid table (`*_tables_valid_init`, `*_tables_valid_pos`
+  for warm messages).  In floating point the messages of `generalized_belief_propagation` can diverge
+  (overflow to `inf`/`nan`): that is outside the real-number model and recorded as known findings.
+* **exactness** — proved for the acyclic structures in which nothing is shared (pairwise disjoint cliques,
+  a forest of isolated nodes): the region graph has no edges and both oracles return `normalise T θ_c`,
+  the marginal of the product model, for every sweep count including 0 (`gbp_disjoint`, `lbp_disjoint`,
+  `oracles_agree_disjoint`).  For general junction-tree-structured clique sets / tree factor graphs
+  exactness is **tested per input** against brute-force marginals (`partial`; see DESIGN.md#c16): with
+  damping 1/2 the GBP messages approach their fixed point geometrically, so "exact after enough sweeps"
+  is a limit statement there.
+-/
 namespace PGM.C16
+open PGM PGM.JT PGM.Oracle
+
+/-- **the common last step** `belief += log(total) − logsumexp(belief); exp` produces a valid table
+for every finite belief table and every total > 0 -/
+theorem normalise_valid (T : ℝ) (b : Factor ℝ) (hT : 0 < T) (hne : b.vals.data.size ≠ 0) :
+    ValidTable T (RG.normalise T b) ∧ (RG.normalise T b).dom = b.dom ∧
+    (RG.normalise T b).vals.data.size = b.vals.data.size :=
+  PGM.Oracle.normalise_valid T b hT hne
+
+/-- each entry is `T · softmax(b)` -/
+theorem normalise_entry (T : ℝ) (b : Factor ℝ) (hT : 0 < T) (i : Nat) (hi : i < b.vals.data.size) :
+    (RG.normalise T b).vals.data[i]? =
+      some (T * Real.exp (b.vals.data[i]'hi) / ((b.vals.data.toList.map Real.exp).sum)) :=
+  PGM.Oracle.normalise_entry T b hT i hi
+
+/-- **region-graph propagation returns normalised tables**: for every region graph (whatever its
+structure), every potential vector, every total, every sweep count and every state of the
+persisted messages, each returned table is `normalise total (some belief)` -/
+theorem gbp_tables_normalised (dom : Dom) (g : RG.Graph) (pots : CliqueVec ℝ) (T : ℝ) (iters : Nat)
+    (msgs : RG.Msgs ℝ) (p : Clique × Factor ℝ) (hp : p ∈ (RG.gbp dom g pots T iters msgs).1) :
+    ∃ b : Factor ℝ, p.2 = RG.normalise T b :=
+  PGM.Oracle.gbp_tables_normalised dom g pots T iters msgs p hp
+
+theorem gbp_keys (dom : Dom) (g : RG.Graph) (pots : CliqueVec ℝ) (T : ℝ) (iters : Nat) (msgs : RG.Msgs ℝ)
+    (hnd : g.cliques.Nodup) :
+    (RG.gbp dom g pots T iters msgs).1.map Prod.fst = g.cliques :=
+  PGM.Oracle.gbp_keys dom g pots T iters msgs hnd
+
+/-- the table of a clique of the graph is the normalised belief of that clique -/
+theorem gbp_get (dom : Dom) (g : RG.Graph) (pots : CliqueVec ℝ) (T : ℝ) (iters : Nat) (msgs : RG.Msgs ℝ)
+    (c : Clique) (hc : c ∈ g.cliques) :
+    (RG.gbp dom g pots T iters msgs).1.get c = RG.normalise T (gbpBelief dom g pots iters msgs c) :=
+  PGM.Oracle.gbp_get dom g pots T iters msgs c hc
+
+/-- **generalised propagation returns valid tables**: if no domain involved has an attribute of
+extent 0 and the potentials of the model cliques are non-empty, every returned table has strictly
+positive entries summing to `T` -/
+theorem gbp_tables_valid_pos (dom : Dom) (g : RG.Graph) (pots : CliqueVec ℝ) (T : ℝ) (iters : Nat)
+    (msgs : RG.Msgs ℝ) (hT : 0 < T)
+    (hpot : ∀ e ∈ g.messageOrder, PosDom (RG.potOf dom g pots e.1).dom)
+    (hcl : ∀ r ∈ g.cliques, PosDom (pots.get r).dom ∧ (pots.get r).vals.data.size ≠ 0)
+    (hm : PosMsgs msgs)
+    (p : Clique × Factor ℝ) (hp : p ∈ (RG.gbp dom g pots T iters msgs).1) : ValidTable T p.2 :=
+  PGM.Oracle.gbp_tables_valid_pos dom g pots T iters msgs hT hpot hcl hm p hp
+
+/-- the same from the initial messages, with hypotheses on the inputs only: every size in `dom` is
+non-zero, the regions on the message schedule use attributes of `dom`, the clique potentials are
+non-empty tables over domains without extent 0 -/
+theorem gbp_tables_valid_init (dom : Dom) (g : RG.Graph) (pots : CliqueVec ℝ) (T : ℝ) (iters : Nat)
+    (hT : 0 < T) (hdom : PosDom dom)
+    (hord : ∀ e ∈ g.messageOrder, (∀ a ∈ e.1, a ∈ dom.attrs) ∧ (∀ a ∈ e.2, a ∈ dom.attrs))
+    (hcl : ∀ r ∈ g.cliques, PosDom (pots.get r).dom ∧ (pots.get r).vals.data.size ≠ 0)
+    (p : Clique × Factor ℝ)
+    (hp : p ∈ (RG.gbp dom g pots T iters (RG.initMessages dom g.messageOrder)).1) : ValidTable T p.2 :=
+  PGM.Oracle.gbp_tables_valid_init dom g pots T iters hT hdom hord hcl p hp
+
+theorem lbp_tables_normalised (dom : Dom) (cliques : List Clique) (pots : CliqueVec ℝ) (T : ℝ)
+    (iters : Nat) (s : FG.State ℝ) (p : Clique × Factor ℝ) (hp : p ∈ (FG.lbp dom cliques pots T iters s).1) :
+    ∃ b : Factor ℝ, p.2 = RG.normalise T b :=
+  PGM.Oracle.lbp_tables_normalised dom cliques pots T iters s p hp
+
+theorem lbp_keys (dom : Dom) (cliques : List Clique) (pots : CliqueVec ℝ) (T : ℝ) (iters : Nat)
+    (s : FG.State ℝ) (hnd : cliques.Nodup) :
+    (FG.lbp dom cliques pots T iters s).1.map Prod.fst = cliques :=
+  PGM.Oracle.lbp_keys dom cliques pots T iters s hnd
+
+/-- **loopy propagation returns valid tables** -/
+theorem lbp_tables_valid_pos (dom : Dom) (cliques : List Clique) (pots : CliqueVec ℝ) (T : ℝ)
+    (iters : Nat) (s : FG.State ℝ) (hT : 0 < T)
+    (hcl : ∀ cl ∈ cliques, PosDom (pots.get cl).dom ∧ (pots.get cl).vals.data.size ≠ 0)
+    (hs : PosState s)
+    (p : Clique × Factor ℝ) (hp : p ∈ (FG.lbp dom cliques pots T iters s).1) : ValidTable T p.2 :=
+  PGM.Oracle.lbp_tables_valid_pos dom cliques pots T iters s hT hcl hs p hp
+
+theorem lbp_tables_valid_init (dom : Dom) (cliques : List Clique) (pots : CliqueVec ℝ) (T : ℝ)
+    (iters : Nat) (hT : 0 < T) (hdom : PosDom dom)
+    (hsub : ∀ cl ∈ cliques, ∀ v ∈ cl, v ∈ dom.attrs)
+    (hcl : ∀ cl ∈ cliques, PosDom (pots.get cl).dom ∧ (pots.get cl).vals.data.size ≠ 0)
+    (p : Clique × Factor ℝ)
+    (hp : p ∈ (FG.lbp dom cliques pots T iters (FG.initMessages dom cliques)).1) : ValidTable T p.2 :=
+  PGM.Oracle.lbp_tables_valid_init dom cliques pots T iters hT hdom hsub hcl p hp
+
+theorem gbp_disjoint (dom : Dom) (cliques : List Clique) (pots : CliqueVec ℝ) (T : ℝ) (iters : Nat)
+    (hd : Disjoint cliques) (hnd : cliques.Nodup) (hne : ∀ c ∈ cliques, c ≠ [])
+    (c : Clique) (hc : c ∈ cliques) :
+    let g := RG.build cliques false true
+    ((RG.gbp dom g pots T iters (RG.initMessages dom g.messageOrder)).1.get c).datavector
+      = (RG.normalise T (pots.get c)).datavector :=
+  PGM.Oracle.gbp_disjoint dom cliques pots T iters hd hnd hne c hc
+
+/-- **when nothing is relaxed the oracles coincide**: for pairwise disjoint cliques the region graph
+has no edges, and generalised propagation returns `normalise total (potential)` on every clique,
+for every sweep count and message state -/
+theorem gbp_disjoint_msgs (dom : Dom) (cliques : List Clique) (pots : CliqueVec ℝ) (T : ℝ) (iters : Nat)
+    (msgs : RG.Msgs ℝ)
+    (hd : Disjoint cliques) (hnd : cliques.Nodup) (hne : ∀ c ∈ cliques, c ≠ [])
+    (c : Clique) (hc : c ∈ cliques) :
+    ((RG.gbp dom (RG.build cliques false true) pots T iters msgs).1.get c).datavector
+      = (RG.normalise T (pots.get c)).datavector :=
+  PGM.Oracle.gbp_disjoint_msgs dom cliques pots T iters msgs hd hnd hne c hc
+
+theorem lbp_disjoint (dom : Dom) (cliques : List Clique) (pots : CliqueVec ℝ) (T : ℝ) (iters : Nat)
+    (hd : Disjoint cliques) (hnd : cliques.Nodup) (htup : ∀ cl ∈ cliques, cl.Nodup)
+    (hpot : ∀ cl ∈ cliques, (pots.get cl).WF ∧ (pots.get cl).dom = dom.project cl)
+    (c : Clique) (hc : c ∈ cliques) :
+    ((FG.lbp dom cliques pots T iters (FG.initMessages dom cliques)).1.get c).datavector
+      = (RG.normalise T (pots.get c)).datavector :=
+  PGM.Oracle.lbp_disjoint dom cliques pots T iters hd hnd htup hpot c hc
+
+/-- all three oracles agree on a disjoint family -/
+theorem oracles_agree_disjoint (dom : Dom) (cliques : List Clique) (pots : CliqueVec ℝ) (T : ℝ)
+    (i1 i2 i3 : Nat) (rho conv : ℝ) (hi : 0 < i2)
+    (hd : Disjoint cliques) (hnd : cliques.Nodup) (hne : ∀ c ∈ cliques, c ≠ [])
+    (htup : ∀ cl ∈ cliques, cl.Nodup)
+    (hpot : ∀ cl ∈ cliques, (pots.get cl).WF ∧ (pots.get cl).dom = dom.project cl)
+    (c : Clique) (hc : c ∈ cliques) :
+    let g1 := RG.build cliques false true
+    let g2 := RG.build cliques true true
+    ((RG.gbp dom g1 pots T i1 (RG.initMessages dom g1.messageOrder)).1.get c).datavector =
+      ((RG.hps dom g2 (fun _ => 1) pots T i2 rho conv (RG.initMessages dom g2.messageOrder)).1.get c).datavector ∧
+    ((RG.gbp dom g1 pots T i1 (RG.initMessages dom g1.messageOrder)).1.get c).datavector =
+      ((FG.lbp dom cliques pots T i3 (FG.initMessages dom cliques)).1.get c).datavector :=
+  PGM.Oracle.oracles_agree_disjoint dom cliques pots T i1 i2 i3 rho conv hi hd hnd hne htup hpot c hc
+
+/-- without the hypothesis on the potentials `lbp_disjoint` fails: an absent potential is the scalar
+table `zeros []`, and the belief `zeros [] + (message over [a])` has 2 cells instead of 1 -/
+theorem lbp_disjoint_needs_pots :
+    ¬ (∀ (dom : Dom) (cliques : List Clique) (pots : CliqueVec ℝ) (T : ℝ) (iters : Nat),
+        Disjoint cliques → cliques.Nodup → (∀ cl ∈ cliques, cl.Nodup) → ∀ c ∈ cliques,
+        ((FG.lbp dom cliques pots T iters (FG.initMessages dom cliques)).1.get c).datavector
+          = (RG.normalise T (pots.get c)).datavector) :=
+  PGM.Oracle.lbp_disjoint_needs_pots 
+
 end PGM.C16
